@@ -109,6 +109,8 @@ partial def compileNative (sa : Bool) (g : SX) : Gen :=
   | "u", [lo, hi] => .map (.uint lo.toU64 hi.toU64) id    -- Go side: Map(Uint64Range, normalise)
   | "i", [lo, hi] => .int lo.toI64 hi.toI64
   | "sampled", [n] => .sampled n.toNat
+  | "f64", [lo, hi] => .map (.float fmt64 lo.toU64 hi.toU64) id    -- Go side: Map(Float64Range, Float64bits)
+  | "f32", [lo, hi] => .map (.float fmt32 lo.toU64 hi.toU64) id
   | "oneof", gs => .oneOf gs.length (fun i => compileGen sa (gs.getD i (.list [])))
   | "filter", [g, p] => .filter (compileGen sa g) (applyPred p)
   | "map", [g, f] => .map (compileGen sa g) (applyFn f)
@@ -192,7 +194,7 @@ def compileProg (p : SX) : Prog :=
 partial def showVal (g : SX) (v : Val) : String :=
   match g.head, g.args with
   | "bool", _ => if v == .bool true then "true" else "false"
-  | "u", _ | "i", _ | "sampled", _ => toString (valInt v)
+  | "u", _ | "i", _ | "sampled", _ | "f64", _ | "f32", _ => toString (valInt v)
   | "oneof", gs =>
       -- the branch is not recorded in the value: all branches of a Spec `oneof` have one kind
       showVal (gs.getD 0 (.list [])) v
